@@ -1842,6 +1842,15 @@ def check_c09(prop, tier, seed, devices):
         cases.append(Case([line("macro", n="one"), instr("inc", ARG(0)), line("endm")] + [call("one", R(16 + i % 16)) for i in range(ncalls)], tag="many-calls"))
     cases.append(Case([line("macro", n="leaf"), instr("dec", ARG(0)), line("endm"), line("macro", n="pair"), call("leaf", ARG(0)), call("leaf", ARG(0)), line("endm")] +
                       [call("pair", R(16 + i % 8)) for i in range(40)], tag="many-calls"))
+    # a symbol spelled like a register is an expression when the caller puts it in parentheses ("parentheses included"):
+    # the body must see the expression, not the register
+    for nme in ("x", "y", "z", "r5", "r16", "r31", "X", "R7"):
+        for wrap in (lambda e: par(e), lambda e: un("-", par(e)), lambda e: par(par(e)), lambda e: un("~", par(e)), lambda e: binop("+", par(e), lit(1))):
+            body = [instr("ldi", R(16), E(fn("low", arg(0)))), data(2, ARG(0))]
+            cases.append(Case([equ(nme, 5), line("macro", n="take")] + copy.deepcopy(body) + [line("endm"), call("take", E(wrap(sym(nme)))), instr("ret")], tag="macro.paren-name"))
+            cases.append(Case([equ(nme, 5), line("macro", n="take"), instr("ldi", R(17), ARG(0)), line("endm"), call("take", E(wrap(sym(nme)))), instr("ret")], tag="macro.paren-name"))
+            cases.append(Case([equ(nme, 5), line("macro", n="inner"), instr("subi", R(18), ARG(0)), line("endm"), line("macro", n="outer"), call("inner", ARG(0)), line("endm"),
+                               call("outer", E(wrap(sym(nme)))), instr("ret")], tag="macro.paren-name"))
     return run_cases(prop, tier, seed, cases, devices, keyf=default_key, mc=mc, extra=[pipeline_extra(sample=1500 if tier == "quick" else 15000, seed=seed)],
                      rule="%d macro bodies (register, repeated, one operator of every precedence level on either side of the parameter, data, "
                           "index forms, conditionals on parameters, nested calls with permuted parameters, bodies switching to the data and EEPROM "
